@@ -18,12 +18,17 @@ from ..cfg import CFG, node_calls
 LEVEL = "other"
 TECHNIQUE = ("syntax-directed extraction of the precedence chain; CFG must-follow / must-precede / def-use (dead store) "
              "queries on the encoding-change and sniffing functions")
-CLAIM = ("The order, confidence and guards of the encoding sources in determineEncoding equal the documented precedence; a "
-         "declared UTF-16 is mapped to UTF-8 and the mapped value is the one that takes effect on both declaration paths; a "
-         "late declaration restarts the parse in the right order and only while the encoding is tentative, and every accepted "
-         "declaration makes the encoding certain; sniffing always "
-         "restores the stream position; the reported encoding is the one the decoder uses.")
-NOT_DECIDED = "the byte-level prescan parser and content= extraction; equality of the tree with the tree of the decoded bytes."
+CLAIM = ('The order, confidence and guards of the encoding sources in determineEncoding equal the documented '
+         'precedence; a declared UTF-16 is mapped to UTF-8 and the mapped value is the one that takes effect '
+         'on both declaration paths; a late declaration restarts the parse in the right order and only while '
+         'the encoding is tentative, and every accepted declaration makes the encoding certain; sniffing '
+         'always restores the stream position; the reported encoding is the one the decoder uses. The tree '
+         "builder's late-<meta> decision table (charset / http-equiv=content-type case-insensitively with "
+         "content / nothing else, only while tentative) equals the standard's; the prescan ends a quoted "
+         'attribute value at the quote that opened it; the content-attribute extractor skips white space after '
+         '`charset=`.')
+NOT_DECIDED = ('the rest of the byte-level prescan (tag skipping, comment handling, attribute-name scanning); '
+               'equality of the tree with the tree of the decoded bytes.')
 MODULES = ["_inputstream.py", "html5parser.py"]
 REL = "_inputstream.py"
 
